@@ -461,7 +461,8 @@ def diagnose(prop, scenario, groups, steps, out):
         if iso is not None:
             g2, s2 = _expected(iso)
             again = drive(iso, s2, g2, None, prop)
-            if again.violation is None:
+            j = next((i for i, st in enumerate(s2) if st["loc"] == wit.get("loc")), None)
+            if again.violation is None or (j is not None and again.step is not None and again.step > j):
                 return "no-reset", {"field": sig["field"]}, wit
     # reference variants that model a known deviation of the library: only used to NAME the cause
     abi = cfi_ref.ABIS[scenario["abi"]]
@@ -672,11 +673,11 @@ class _Gen:
         r = self.r
         self.abi_name = params.get("abi") or _pick_w(streams.get("gen.module"), ABI_WEIGHTS)
         self.abi = cfi_ref.ABIS[self.abi_name]
-        # known findings: with probability avoid_known steer away from every known trigger; otherwise expose ONE of
-        # them (or, one time in five, all) so that the findings do not mask each other either
+        # known findings: with probability avoid_known steer away from every known trigger; otherwise expose exactly
+        # ONE of them, so that the findings do not mask each other either
         rk = streams.get("gen.knobs")
         self.avoid = rk.random() < float(params.get("avoid_known", 0.8))
-        self.expose = [] if self.avoid else rk.choice([KNOWN, ["restore"], ["rel"], ["ra"], ["order"]])
+        self.expose = [] if self.avoid else [rk.choice(KNOWN)]
         self.ref = {"rel_offset": params.get("rel_offset_semantics", "dwarf")}
         self.m = cfi_ref.Machine(self.abi, self.ref)
         self.events = []  # (group, name, ops, sym, tag)
@@ -1063,7 +1064,51 @@ def shrink_candidates(prop, scenario):
                     c["history"][i][3][j] = small
                     yield c
                     break
+    # escape payloads: keep a single instruction, drop single operations of an expression
+    abi = cfi_ref.ABIS[sc["abi"]]
+    for i, e in enumerate(h):
+        if e[2] != ".cfi_escape":
+            continue
+        for payload in _escape_shrinks(list(e[3]), abi):
+            c = _copy.deepcopy(sc)
+            c["history"][i][3] = payload
+            yield c
     if sc["sigma"].get("salt"):
         c = _copy.deepcopy(sc)
         c["sigma"]["salt"] = 0
         yield c
+
+
+def _uleb_bytes(v):
+    out = []
+    while True:
+        b = v & 0x7F
+        v >>= 7
+        out.append(b | (0x80 if v else 0))
+        if not v:
+            return out
+
+
+def _escape_shrinks(b, abi):
+    spans = []
+    try:
+        cfi_ref.decode_escape(b, abi["order"], abi["ptr"], spans)
+    except cfi_ref.Malformed:
+        return
+    if len(spans) > 1:
+        for s in spans:
+            yield b[: s[0]] + b[s[1] :]
+    for s in spans:
+        if s[2] is None:
+            continue
+        start, end, lenpos, estart = s
+        ops = []
+        try:
+            cfi_ref.decode_expr(b[estart:end], abi["order"], abi["ptr"], ops)
+        except cfi_ref.Malformed:
+            continue
+        if len(ops) < 2:
+            continue
+        for a, z in ops:
+            body = b[estart : estart + a] + b[estart + z : end]
+            yield b[:start] + b[start:lenpos] + _uleb_bytes(len(body)) + body + b[end:]
